@@ -338,6 +338,7 @@ func c08Extend(c *fw.Ctx, idx int) {
 		c.SetInput(map[string]any{"start": "a box given the first geometry's corners by " + how, "geometries": strings.Join(desc, " | "), "order": fmt.Sprint(ord)})
 		var b *geom.Bounds
 		skip := false
+		cornersChanged := false
 		if c.Guard("panic", func() {
 			bb := ts[ord[0]].Bounds()
 			st := bb.Layout().Stride()
@@ -363,14 +364,24 @@ func c08Extend(c *fw.Ctx, idx int) {
 			default:
 				b = geom.NewBounds(bb.Layout()).Set(append(append([]float64{}, hi...), hi...)...).Set(append(append([]float64{}, lo...), hi...)...)
 			}
+			lo0, hi0 := append([]float64{}, lo...), append([]float64{}, hi...)
 			for _, i := range ord[1:] {
 				b = b.Extend(ts[i])
+			}
+			// the corner slices the box was made from are the caller's: extending
+			// the box afterwards does not write to them
+			if !model.BitsEq(lo, lo0) || !model.BitsEq(hi, hi0) {
+				cornersChanged = true
 			}
 		}) {
 			return
 		}
 		if skip {
 			continue
+		}
+		if cornersChanged {
+			c.Fail("argument-modified", "the corner coordinates handed to %s were overwritten when the box was extended later", how)
+			return
 		}
 		c.Count("extend_from_a_box_made_by_" + how)
 		if !c08Compare(c, fmt.Sprintf("box of geometry %d made by %s, extended in order %v", ord[0], how, ord[1:]), b, want2, sb, anyc) {
